@@ -99,6 +99,7 @@ class Check:
         lock = open(os.path.join(COQ, '.build.lock'), 'w')
         fcntl.flock(lock, fcntl.LOCK_EX)
         try:
+            sh([os.path.join(VERIF, 'tools', 'mkproject.sh')])
             if not os.path.exists(os.path.join(COQ, 'Makefile')) or \
                     os.path.getmtime(os.path.join(COQ, 'Makefile')) < os.path.getmtime(os.path.join(COQ, '_CoqProject')):
                 sh(['coq_makefile', '-f', '_CoqProject', '-o', 'Makefile'], cwd=COQ)
